@@ -10,7 +10,7 @@ from symx.ops import And
 def install():
     import artap.utils as U
     import artap.doe as DOE
-    stubs.install((U, 'random', stubs.s_random), (U, 'int', ops.sint))
+    stubs.install((U, 'random', stubs.s_random), (U, 'int', ops.sint), (DOE, 'np', stubs.numpy_shim_light))
     if not getattr(DOE.halton, '_symx_wrapped', False):
         real_halton = DOE.halton
         alias = {}
@@ -88,6 +88,7 @@ def install_lhs_random():
     def isinstance_ok(obj):
         return obj
 
-    shim = stubs.Shim(np, random=_Rnd, zeros_like=zeros_like)
+    shim = stubs.Shim(np, random=_Rnd, zeros_like=zeros_like, asarray=stubs.n_asarray, array=stubs.n_array,
+                      round=stubs.n_round, around=stubs.n_round)
     stubs.install((DOE, 'np', shim))
     return DOE
